@@ -112,6 +112,50 @@ func genConflictVote(repo string) (string, error) {
 	if err != nil {
 		return "", err
 	}
+	// canonical names (receiver, the local node, the response channel, the loop variable, the decode target),
+	// so that a renaming does not change the facts; trivial same-file helpers are inlined one level
+	ren := map[string]string{}
+	if rn := recvName(fd); rn != "" {
+		ren[rn] = "s"
+	}
+	ast.Inspect(fd.Body, func(n ast.Node) bool {
+		switch x := n.(type) {
+		case *ast.AssignStmt:
+			if len(x.Lhs) == 1 && len(x.Rhs) == 1 && x.Tok == token.DEFINE {
+				if id, ok := x.Lhs[0].(*ast.Ident); ok {
+					r := squash(x.Rhs[0])
+					if strings.HasSuffix(r, ".memberlist.LocalNode()") {
+						ren[id.Name] = "local"
+					}
+					if strings.HasSuffix(r, ".ResponseCh()") {
+						ren[id.Name] = "respCh"
+					}
+				}
+			}
+		case *ast.RangeStmt:
+			if id, ok := x.Key.(*ast.Ident); ok && x.Value == nil && x.Tok == token.DEFINE {
+				if xid, ok := x.X.(*ast.Ident); ok && (xid.Name == "respCh" || ren[xid.Name] == "respCh") {
+					ren[id.Name] = "r"
+				}
+			}
+		case *ast.ValueSpec:
+			if x.Type != nil && squash(x.Type) == "Member" && len(x.Names) == 1 {
+				ren[x.Names[0].Name] = "member"
+			}
+		}
+		return true
+	})
+	renameIdents(fd.Body, ren)
+	if fd.Body.List, err = inlineHelpers(f, fd.Body.List); err != nil {
+		return "", err
+	}
+	for _, st := range fd.Body.List {
+		if rs, ok := st.(*ast.RangeStmt); ok {
+			if rs.Body.List, err = inlineHelpers(f, rs.Body.List); err != nil {
+				return "", err
+			}
+		}
+	}
 	var loop *ast.RangeStmt
 	loopIdx := -1
 	countersInt := false
@@ -146,7 +190,7 @@ func genConflictVote(repo string) (string, error) {
 		t := squash(s)
 		switch x := s.(type) {
 		case *ast.IfStmt:
-			c := squash(x.Cond)
+			c := strings.Replace(squash(x.Cond), "len(r.Payload) == 0", "len(r.Payload) < 1", 1)
 			switch {
 			case x.Init == nil && c == "len(r.Payload) < 1 || messageType(r.Payload[0]) != messageConflictResponseType" && bodyHas(x.Body, "continue"):
 				order = append(order, "typeCheck")
